@@ -16,6 +16,7 @@
 -/
 import CSD.Lemmas.Codes
 import CSD.Lemmas.ChunkDec
+import CSD.Lemmas.ChunkDecAll
 import CSD.Generated.Bodies
 import CSD.Model.SourceText
 
@@ -69,6 +70,19 @@ theorem chunk_step_on_encoded_text (t : Tree) (k : Nat) (table : Nat → Option 
       (out.getLast? ≠ some 0 →
         ∃ e2, encode t (w.drop out.length) = some e2 ∧ stream c'.pend c'.bytes = e2 ++ rest) :=
   processChunk_on_encoded t k table hT c out flag c' h w enc rest henc hs hm
+
+open CSD.ChunkDec in
+/-- **Table decoding inverts encoding, for a whole string, wherever it starts and ends**: if the stream —
+pending bits first (any bit offset inside a byte), then bytes — holds the encoding of `w`, a string with
+no terminator before its last symbol, then repeating `processChunk` until `|w|` symbols are written
+writes exactly `w`, whatever follows `w` in the stream (the next string, padding, nothing) and although
+the last step may decode beyond the end of `w`. Codewords longer than the chunk go through the subtrees. -/
+theorem chunked_decoding_inverts_encoding (t : Tree) (k : Nat) (table : Nat → Option Entry) (hT : TableOK t k table)
+    (fuel : Nat) (pend : List Bool) (bytes : List Nat) (w : List Nat) (enc rest : List Bool) (o : List Nat)
+    (henc : encode t w = some enc) (hnz : ∀ i, i + 1 < w.length → w[i]? ≠ some 0)
+    (hs : padTo k (stream pend bytes) = enc ++ rest)
+    (h : decodeAll table k fuel pend bytes w.length = some o) : o.take w.length = w :=
+  decodeAll_spec t k table hT fuel pend bytes w enc rest o henc hnz hs h
 
 open CSD.ChunkDec in
 /-- **The step never fails** — no table index without an entry, no byte read past the bucket — when the
